@@ -20,6 +20,9 @@ var (
 	// ErrBadRepetition is returned when the right-hand side of the array
 	// repetition operator is invalid; i.e. negative or not an integer.
 	ErrBadRepetition = fmt.Errorf("%w: bad repetition count", ErrPanic)
+	// ErrRangeValue is returned when a step range has an invalid value,
+	// such as a step of 0.
+	ErrRangeValue = fmt.Errorf("%w: bad range value", ErrPanic)
 )
 
 // VM is responsible for executing evy programs from bytecode.
@@ -267,6 +270,9 @@ func (vm *VM) Run() error {
 			index := vm.popNumVal()
 			step := vm.popNumVal()
 			stop := vm.popNumVal()
+			if step == 0 {
+				return fmt.Errorf("%w: step cannot be 0, infinite loop", ErrRangeValue)
+			}
 			// stack overflow wont happen because we just popped these values
 			_ = vm.push(stop)
 			_ = vm.push(step)
